@@ -30,6 +30,18 @@ CHECKS = {
  "C14": ("model_checking", "complete TLC enumeration of the Fwd spec (MakeFormat round trip through the Format parser) + replay of every directive with probe formatters under real fmt and real redact",
    "The directive space of the property's quantifier is enumerated completely at the thorough tier; the model's MakeFormat string must equal the real one under both printers, the real round trip must re-observe the same flags/width/precision/verb, and wrappers/forwarders print like the bare operand under fmt for 19 kinds.",
    "DESIGN.md 6/C14", "Go 1.23 fmt as the standard fmt.State"),
+ "C02": ("model_checking", "TLC model checking of the Printer spec (payload-agnostic by construction: payloads are opaque tokens) + replay of every case with two instantiations of the secret payloads on the real code",
+   "The specification never inspects a payload, so the model output is a function of the shape alone; the model-level invariant places every undeclared token inside an envelope. Each enumerated case is run twice on the real code with different secrets; Redact() of the two results must be identical and sentinel-free.",
+   "DESIGN.md 6/C02", "public values shared between the two instantiations are chosen by the statement-level classification (Go port)"),
+ "C05": ("model_checking", "TLC model checking of the Printer spec against a statement-level classification (inherited attribute) + byte-exact replay + the same equation on real outputs",
+   "Operational model (modes, overrides, restorers) checked by TLC against an independent denotational classification on every enumerated case; the real printer must reproduce the model byte for byte and satisfy the visible-text equation.",
+   "DESIGN.md 6/C05", "fmt supplies leaf texts; classification port in Go mirrors MCPrinter!Ctxs"),
+ "C06": ("model_checking", "TLC model checking of the Printer spec over wrapper nestings x value universe incl. call-back scripts + replay + negative control on the pre-repair model",
+   "TLC checks on every case that an Unsafe-outermost operand is entirely enveloped and a Safe-outermost unclassified one not at all; the same predicates are evaluated on the real outputs; the pre-repair specification (F3) is kept and must violate the invariant (vacuity control).",
+   "DESIGN.md 6/C06", "F3 repaired by fix commit 4e24046"),
+ "C11": ("model_checking", "TLC model checking of Printer (panic propagation through restorers/catchPanic/nested printers) and Buffer (every rune/byte class in every reachable state) + replay under recover on the real code",
+   "Totality of every buffer operation over all reachable states and rune classes; containment, in-place report and restoration after user-method panics at every script position, replayed on the real code under recover with plain and hot payloads.",
+   "DESIGN.md 6/C11", "F1, F2 repaired by fix commits; Grow(<0) and memory exhaustion outside the claim"),
 }
 
 NOT_YET = {
